@@ -1391,6 +1391,13 @@ func (fx *FnExec) execMakeInterface(x *ssa.MakeInterface) {
 	tag := fx.W.typeTag(x.X.Type())
 	pay := fx.box(x.X.Type(), fx.term(v))
 	fx.defReg(x, fmt.Sprintf("(mk-iface %d %s)", tag, pay))
+	// boxing a slice whose backing array this activation created (or an empty one): recorded for
+	// the contracts of functions that write through a boxed slice (sort.Slice, ...)
+	if _, isSlice := x.X.Type().Underlying().(*types.Slice); isSlice {
+		fx.declareFun("uf_freshBoxed", []string{"Iface"}, "Bool")
+		sv := fx.term(v)
+		fx.assume("(=> (or (> (s.arr " + sv + ") " + fx.allocBase() + ") (= (s.len " + sv + ") 0)) (uf_freshBoxed " + fx.regs[x].S + "))")
+	}
 }
 
 func (fx *FnExec) execTypeAssert(x *ssa.TypeAssert) {
